@@ -55,12 +55,21 @@ def tasks(tier):
          "witnesses": ["second-call"]},
         {"name": "alias:params_initial:bound-edit", "fn": "t_alias_params", "args": {"how": "passed", "edit": "bound"},
          "witnesses": ["second-call"]},
+        {"name": "alias:params_initial:direct-edit", "fn": "t_alias_params", "args": {"how": "passed", "via": "setitem"},
+         "witnesses": ["second-call"]},
+        {"name": "alias:params_initial:direct-edit:vary-edit", "fn": "t_alias_params",
+         "args": {"how": "passed", "edit": "vary", "via": "setitem"}, "witnesses": ["second-call"]},
+        {"name": "alias:returned:available-steps", "fn": "t_alias_available", "args": {}, "witnesses": ["second-call"]},
         {"name": "alias:rating:names", "fn": "t_alias_names", "args": {}, "witnesses": ["second-call"]},
         {"name": "alias:preproc:options", "fn": "t_alias_preproc", "args": {"what": "options"},
          "witnesses": ["second-call"]},
         {"name": "alias:preproc:steps", "fn": "t_alias_preproc", "args": {"what": "steps"},
          "witnesses": ["second-call"]},
         {"name": "alias:fit:preprocessing-kwargs", "fn": "t_alias_preproc", "args": {"what": "fit-options"},
+         "witnesses": ["second-call"]},
+        {"name": "alias:preproc:options-with-unused-entry", "fn": "t_alias_preproc", "args": {"what": "unused-entry"},
+         "witnesses": ["second-call"]},
+        {"name": "alias:fit:options-with-unused-entry", "fn": "t_alias_preproc", "args": {"what": "fit-unused-entry"},
          "witnesses": ["second-call"]},
     ]
     for m in (["hertz_para", "power_layer_clifford_2009"] if tier == "quick" else list(specs.PARAMS)):
@@ -236,8 +245,9 @@ def _visible_eq(a, b):
     return all_of(conds)
 
 
-def t_alias_params(how, edit="value"):
-    """fit(P); edit P in place; fit(P)  vs  twin: fit(copy0); fit(copy of edited P)."""
+def t_alias_params(how, edit="value", via="kwarg"):
+    """fit(P); edit P in place; fit(P)  vs  twin: fit(copy0); fit(copy of edited P).
+    via="setitem": P is handed over by a direct edit fit_properties["params_initial"] = P."""
     global LAST_WORLD
     w, idnt, x, y, seg, P, init = fc.setup("4+2", "hertz_cone", ["E"])
     LAST_WORLD = w
@@ -263,7 +273,15 @@ def t_alias_params(how, edit="value"):
     else:
         P1 = P
     P0 = copy.deepcopy(P1)
-    idnt.fit_model(params_initial=P1, **kw)
+
+    def fit(curve, params):
+        if via == "setitem":
+            curve.fit_properties["model_key"] = "hertz_cone"
+            curve.fit_properties["params_initial"] = params
+            curve.fit_model(**kw)
+        else:
+            curve.fit_model(params_initial=params, **kw)
+    fit(idnt, P1)
     n1 = len(symlmfit.CALLS)
     if edit == "value":
         P1["E"].value = newE
@@ -271,13 +289,13 @@ def t_alias_params(how, edit="value"):
         P1["baseline"].vary = True        # same values, another parameter varied
     else:
         P1["E"].set(max=newE + init["E"] + 1)   # same values, another bound
-    idnt.fit_model(params_initial=P1, **kw)
+    fit(idnt, P1)
     n2 = len(symlmfit.CALLS)
     witness("second-call")
     # twin with fresh equal-valued objects
-    idnt2.fit_model(params_initial=copy.deepcopy(P0), **kw)
+    fit(idnt2, copy.deepcopy(P0))
     m1 = len(symlmfit.CALLS)
-    idnt2.fit_model(params_initial=copy.deepcopy(P1), **kw)
+    fit(idnt2, copy.deepcopy(P1))
     m2 = len(symlmfit.CALLS)
     core.count("transitions", 4)
     prove("edit-noticed:same-optimiser-runs-as-fresh-copy", (n2 - n1) == (m2 - m1),
@@ -292,6 +310,42 @@ def t_alias_params(how, edit="value"):
         prove("stored-initial-parameters-hold-the-edited-attributes",
               _pstate_eq(_pstate(idnt.fit_properties["params_initial"]), _pstate(P1)))
     return {"how": how, "runs_same_object": n2 - n1, "runs_fresh_copy": m2 - m1}
+
+
+def t_alias_available():
+    """L = preproc.available(); the caller edits L in place (solver-chosen
+    element removed, another one appended); later calls behave as before."""
+    global LAST_WORLD
+    w = common.indent_world()
+    LAST_WORLD = w
+    pp = w.modules["nanite.preproc"]
+    first = list(pp.available())
+    i = core.integer("removed_index")
+    assume(i >= 0)
+    assume(i < len(first))
+    check_assumptions()
+    L = pp.available()
+    k = core.concretize(i)
+    del L[k]
+    L.append("my_own_step")
+    second = pp.available()
+    witness("second-call")
+    prove("returned-list-not-aliased-to-library-state", list(second) == first,
+          info={"removed": first[k], "available afterwards": list(second)})
+    prove("removed-step-still-known", pp.get_func(first[k]).identifier == first[k] and first[k] in pp.available())
+    try:
+        pp.check_order(list(first))
+        ok = True
+    except ValueError:
+        ok = False
+    prove("full-list-still-valid", ok)
+    try:
+        pp.autosort(["my_own_step"])
+        unknown_rejected = False
+    except (KeyError, ValueError):
+        unknown_rejected = True
+    prove("callers-own-identifier-not-accepted-as-a-step", unknown_rejected)
+    return {"removed": first[k]}
 
 
 def t_alias_names():
@@ -351,19 +405,27 @@ def t_alias_preproc(what):
     # tip position is innate here, so correct_tip_offset's prerequisite
     # compute_tip_position must be listed
     steps = ["compute_tip_position"] + steps
+    if what in ("unused-entry", "fit-unused-entry"):
+        # the caller's dictionary has an entry for a step that the first request does not use
+        steps = ["compute_tip_position", "correct_tip_offset"]
+        opts = {"correct_force_slope": {"region": "all", "strategy": "drift"}}
     kw = dict(model_key="hertz_cone", params_initial=P, range_x=[0, 0], range_type="absolute",
               segment=0, weight_cp=0, gcf_k=1)
 
     def call(obj, st, op):
-        if what == "fit-options":
+        if what in ("fit-options", "fit-unused-entry"):
             obj.fit_model(preprocessing=st, preprocessing_options=op, **dict(kw, params_initial=copy.deepcopy(P)))
         else:
             obj.apply_preprocessing(st, options=op)
     st0, op0 = copy.deepcopy(steps), copy.deepcopy(opts)
     call(idnt, steps, opts)
     r1 = len(runs)
+    prove("arguments-unchanged-by-the-call", steps == st0 and opts == op0,
+          info={"steps": repr(steps), "options": repr(opts)})
     if what in ("options", "fit-options"):
         opts["correct_force_slope"]["strategy"] = "drift"
+    elif what in ("unused-entry", "fit-unused-entry"):
+        steps.append("correct_force_slope")     # now the entry is used
     else:
         steps.append("correct_force_offset")
     call(idnt, steps, opts)
@@ -379,6 +441,8 @@ def t_alias_preproc(what):
     prove("edit-noticed:visible-state-equals-fresh-copy", _visible_eq(_visible(idnt), _visible(idnt2)))
     prove("reported-preprocessing-is-the-new-request",
           idnt.preprocessing == steps and idnt.preprocessing_options == opts)
+    if what in ("unused-entry", "fit-unused-entry"):
+        prove("arguments-unchanged-by-the-call", opts == op0, info={"options": repr(opts)})
     return {"what": what, "step_runs_same_object": r2 - r1, "step_runs_fresh_copy": q2 - q1}
 
 
@@ -439,12 +503,31 @@ if idnt.get_rating_parameters()["Feature names"] != ["feat_con_apr_sum", "feat_b
     print("REPRODUCED: rating cache aliases the caller's list"); sys.exit(1)
 sys.exit(0)
 '''
+    if fn == "t_alias_available":
+        k = int(float(model.get("removed_index", 0)))
+        return common.REPLAY_HEAD + f'''
+import nanite.preproc as pp
+first = list(pp.available()); k = {k}
+L = pp.available(); removed = L[k]; del L[k]; L.append("my_own_step")
+second = list(pp.available())
+print("removed", removed, "available afterwards", second)
+if second != first:
+    print("REPRODUCED: editing the list returned by preproc.available() changed the library state"); sys.exit(1)
+sys.exit(0)
+'''
     if fn == "t_alias_params":
         how = task["args"]["how"]
         edit = task["args"].get("edit", "value")
+        via = task["args"].get("via", "kwarg")
         return common.REPLAY_HEAD + REPLAY_COMMON + f'''
-how = {how!r}
+how = {how!r}; via = {via!r}
 kw = dict(model_key="hertz_cone", range_x=[0, 0], range_type="absolute", segment=0, weight_cp=0, gcf_k=1)
+def fit(curve, params):
+    if via == "setitem":
+        curve.fit_properties["model_key"] = "hertz_cone"; curve.fit_properties["params_initial"] = params
+        curve.fit_model(**kw)
+    else:
+        curve.fit_model(params_initial=params, **kw)
 def P0():
     P = nmodel.models_available["hertz_cone"].get_parameter_defaults()
     P["contact_point"].vary = False; P["baseline"].vary = False
@@ -456,14 +539,14 @@ if how == "returned":
     P1 = a.get_initial_fit_parameters()
 else:
     P1 = P
-a.fit_model(params_initial=P1, **kw); n1 = runs[0]
+fit(a, P1); n1 = runs[0]
 edit = {edit!r}
 if edit == "value": P1["E"].value = 7777.0
 elif edit == "vary": P1["baseline"].vary = True
 else: P1["E"].set(max=9000.0)
-a.fit_model(params_initial=P1, **kw); n2 = runs[0]
-b.fit_model(params_initial=P0(), **kw); m1 = runs[0]
-b.fit_model(params_initial=copy.deepcopy(P1), **kw); m2 = runs[0]
+fit(a, P1); n2 = runs[0]
+fit(b, P0()); m1 = runs[0]
+fit(b, copy.deepcopy(P1)); m2 = runs[0]
 print("optimiser runs after in-place edit:", n2 - n1, " with fresh copy:", m2 - m1)
 ea = a.fit_properties["params_fitted"]["E"].value; eb = b.fit_properties["params_fitted"]["E"].value
 print("fitted E:", ea, eb)
@@ -496,15 +579,22 @@ def P0():
     P["contact_point"].vary = False; P["baseline"].vary = False
     return P
 kw = dict(model_key="hertz_cone", range_x=[0, 0], range_type="absolute", segment=0, weight_cp=0, gcf_k=1)
+if what in ("unused-entry", "fit-unused-entry"):
+    steps = ["compute_tip_position", "correct_tip_offset"]
+    opts = {{"correct_force_slope": {{"region": "all", "strategy": "drift"}}}}
 def call(o, st, op):
-    if what == "fit-options":
+    if what in ("fit-options", "fit-unused-entry"):
         o.fit_model(preprocessing=st, preprocessing_options=op, params_initial=P0(), **kw)
     else:
         o.apply_preprocessing(st, options=op)
 st0, op0 = copy.deepcopy(steps), copy.deepcopy(opts)
 call(a, steps, opts); r1 = napply[0]
+if steps != st0 or opts != op0:
+    print("REPRODUCED: the call changed the caller's arguments:", steps, opts); sys.exit(1)
 if what in ("options", "fit-options"):
     opts["correct_force_slope"]["strategy"] = "drift"
+elif what in ("unused-entry", "fit-unused-entry"):
+    steps.append("correct_force_slope")
 else:
     steps.append("correct_force_offset")
 call(a, steps, opts); r2 = napply[0]
